@@ -229,15 +229,33 @@ def Dir.append (d : Dir) (f data : Bytes) : Dir :=
   | none => aset d f data
   | some old => aset d f (old ++ data)
 
-def str (s : String) : Bytes := s.toUTF8.toList
-
 /-- two's complement reading of a 32-bit pattern (`int32_t tid = ntohl(tid)`) -/
 def toInt32 (u : Nat) : Int :=
   if u % 2 ^ 32 < 2 ^ 31 then (u % 2 ^ 32 : Nat) else (u % 2 ^ 32 : Nat) - (2 ^ 32 : Nat)
 
-def dataName (tid : Nat) : Bytes := str (toString (toInt32 tid) ++ ".dat")
-def kernelName (cpu : Nat) : Bytes := str ("kernel-cpu" ++ toString (toInt32 cpu) ++ ".dat")
-def perfName (cpu : Nat) : Bytes := str ("perf-cpu" ++ toString (toInt32 cpu) ++ ".dat")
+def decBytesAux : Nat → Nat → Bytes → Bytes
+  | 0, _, acc => acc
+  | fuel + 1, n, acc =>
+    let acc' := UInt8.ofNat (48 + n % 10) :: acc
+    if n / 10 = 0 then acc' else decBytesAux fuel (n / 10) acc'
+
+/-- printf("%u") -/
+def decBytes (n : Nat) : Bytes := decBytesAux (n + 1) n []
+
+/-- printf("%d") -/
+def fmtInt (i : Int) : Bytes :=
+  if i < 0 then 45 :: decBytes i.natAbs else decBytes i.natAbs
+
+/-- ".dat" -/
+def dotDat : Bytes := [46, 100, 97, 116]
+/-- "%d.dat" -/
+def dataName (tid : Nat) : Bytes := fmtInt (toInt32 tid) ++ dotDat
+/-- "kernel-cpu%d.dat" -/
+def kernelName (cpu : Nat) : Bytes :=
+  [107, 101, 114, 110, 101, 108, 45, 99, 112, 117] ++ fmtInt (toInt32 cpu) ++ dotDat
+/-- "perf-cpu%d.dat" -/
+def perfName (cpu : Nat) : Bytes :=
+  [112, 101, 114, 102, 45, 99, 112, 117] ++ fmtInt (toInt32 cpu) ++ dotDat
 /-- "info" -/
 def infoName : Bytes := [105, 110, 102, 111]
 /-- NAME ++ ".old" -/
@@ -286,7 +304,7 @@ def inUse (s : Server) (n : Bytes) : Bool :=
 
 def candName (n : Bytes) : Nat → Bytes
   | 0 => n
-  | k + 1 => n ++ str ("." ++ toString (k + 1))
+  | k + 1 => n ++ 46 :: decBytes (k + 1)
 
 /-- first of NAME, NAME.1, NAME.2, … not in use (`fuel` bounds the search) -/
 def pickName (s : Server) (n : Bytes) : Nat → Nat → Option Bytes
